@@ -139,7 +139,9 @@ def correspondence(ctx):
               "tuples, class-aware constructor arguments, seeded tuples incl. non-serializable members, extra instance "
               "attributes} x ALL 32 settings of the five switches through the real dump -> brine -> load, plus an end-to-end "
               "sample over simnet connections (incl. SystemExit/KeyboardInterrupt with the two local-routing switches); custom "
-              "classes (23 variants) x 32 settings with import/constructor canaries; crafted payloads (stop-marker look-alikes, "
+              "classes (23 variants) x 32 settings with import/constructor canaries; two-hop cases (the object one load returned is raised on and dumped again: every class, random switches at each "
+              "hop, directly and as a callback's exception relayed through a server method over real threaded connections); "
+              "crafted payloads (stop-marker look-alikes, "
               "wrong shapes, near-records over 22 module names x 36 class names x hostile args/attrs/version/traceback "
               "fields) direct and end-to-end. Compared: dump output, import attempts, sys.modules delta, constructor canary, "
               "load outcome (class identity via type(e).__mro__[1], args, instance attributes, _remote_tb, error class) and "
@@ -180,7 +182,7 @@ def correspondence(ctx):
                 c.count("import-attempted")
             if obs.get("delta"):
                 c.count("module-imported")
-            trivial = case["kind"] == "exc" and case["spec"]["cls"] == "builtins:ValueError" and case["spec"]["args"] == "( )" \
+            trivial = case["kind"] in ("exc", "exc2") and case["kind"] == "exc" and case["spec"]["cls"] == "builtins:ValueError" and case["spec"]["args"] == "( )" \
                 and case["s"][:2] == "TT" and case["r"] == "FFF"
             if not trivial:
                 c.signatures.add(sig)
@@ -253,13 +255,48 @@ def correspondence(ctx):
         for pr in pairs.values():
             pr.close()
     t3 = time.time()
+    # 4. two hops: an exception received from one peer and raised on to another (direct: dump(load(dump(exc))) with every
+    #    switch at each hop; relay: a callback's exception passing through a server method, over real threaded connections)
+    for i, spec in enumerate(specs + custom):
+        s1, r1 = r.choice(SENDS) + "FF", r.choice(RECVS)
+        cfg2 = ALL32 if (i % 40 == 7 and ctx.tier == "thorough") else [(r.choice(SENDS) + "FF", r.choice(RECVS))
+                                                                     for _ in range(ctx.budget(2, 6))]
+        try:
+            for s2, r2, line, obs, info in vc.two_hop_product(spec, s1, r1, cfg2):
+                add(dict(kind="exc2", spec=spec, s=s1, r=r1, s2=s2, r2=r2, mode="direct"), ["pay", "imp", "init", "out", "seen"],
+                    line, obs, info, "two-hop:direct", _sig_exc("2d", spec, s1[:2] + s2[:2], r1 + r2, obs["seen"]))
+        except (vc.Skip, ve.Unrepresentable) as ex:
+            c.count("skipped:" + str(ex)[:40])
+    relays = {}
+    try:
+        allspecs = specs + custom
+        for k in range(ctx.budget(500, 6000)):
+            key = (r.choice(SENDS) + "FF", r.choice(["FFF", "TTF", "FTF"]), r.choice(SENDS) + "FF", r.choice(["FFF", "TTT", "FTF"])) \
+                if len(relays) < ctx.budget(10, 40) else r.choice(sorted(relays))
+            if key not in relays:
+                relays[key] = vc.RelayPair(*key)
+            spec = r.choice(allspecs)
+            try:
+                line, obs, info = vc.run_relay_e2e(relays[key], spec, key[2], key[3])
+            except (vc.Skip, ve.Unrepresentable) as ex:
+                c.count("skipped:" + str(ex)[:40])
+                continue
+            add(dict(kind="exc2", spec=spec, s=key[0], r=key[1], s2=key[2], r2=key[3], mode="relay"), ["init", "seen"],
+                line, obs, info, "two-hop:relay", _sig_exc("2r", spec, key[0][:2] + key[2][:2], key[1] + key[3], obs["seen"]))
+    finally:
+        for pr in relays.values():
+            try:
+                pr.close()
+            except Exception:  # noqa
+                pass
+    t3b = time.time()
     flush()
     if c.error:
         return c
     c.extra["builtin_exception_classes"] = [k.__name__ for k in ve.builtin_exception_classes()]
     c.extra["switch_settings_per_exception"] = 32
     c.extra["phase_seconds"] = dict(genuine_direct=round(t1 - t0, 1), payload_direct=round(t2 - t1, 1),
-                                    end_to_end=round(t3 - t2, 1), lean_driver_within_those=round(driver_s[0], 1))
+                                    end_to_end=round(t3 - t2, 1), two_hops=round(t3b - t3, 1), lean_driver_within_those=round(driver_s[0], 1))
     c.exhaustive = False
     return c
 
@@ -487,6 +524,86 @@ def oracle_exc(spec, s, r, mode="direct", known=()):
     return None
 
 
+def oracle_exc2(spec, s1, r1, s2, r2, mode="direct", known=()):
+    """two hops: the exception is received by one peer and raised on to another; the class surfacing at the final requester is
+    the original's (same rule as one hop), with the same normalised arguments; nothing is imported or constructed unless allowed"""
+    from rpyc.core import vinegar, brine
+    try:
+        exc = vc.build_exc(spec)
+    except vc.Skip:
+        return None
+    t = type(exc)
+    m, c = t.__module__, t.__name__
+    is_builtin = getattr(builtins, c, None) is t
+    if t in (SystemExit, KeyboardInterrupt, GeneratorExit) or unserializable(exc) or list(dir(exc)).count("args") != 1:
+        return None
+    if t is StopIteration and not exc.args:
+        return None
+    ve.reset_canaries()
+    final = None
+    with ve.ImportWatch() as w:
+        try:
+            if mode == "direct":
+                obj = vc.first_hop(spec, s1, r1)
+                if obj is None:
+                    return None                   # the first hop alone already fails: a one-hop matter
+                t2, v2, tb2 = vc.capture(obj)
+                sf, rf = vc.flags(s2), vc.flags(r2)
+                tbtext2 = ve.format_tb(t2, v2, tb2)[0]
+                out = vinegar.load(brine.load(brine.dump(vinegar.dump(t2, v2, tb2, sf[0], sf[1]))), rf[0], rf[1], rf[2])
+                try:
+                    raise out
+                except BaseException as ex:  # noqa
+                    final = ex
+            else:
+                pair = vc.RelayPair(s1, r1, s2, r2)
+                tbtext2 = None
+                try:
+                    def boom():
+                        raise exc
+                    try:
+                        pair.relay(boom)
+                    except BaseException as ex:  # noqa
+                        final = ex
+                finally:
+                    pair.close()
+        except Exception as ex:  # noqa
+            final = ex
+    init = len(ve.canary().INIT)
+    attempts, delta = list(w.attempts), list(w.delta)
+    w.cleanup()
+    if init:
+        return "a constructor (__init__) ran on a receiver", "C09:constructor-ran"
+    if not (vc.flags(r1)[0] or vc.flags(r2)[0]) and (attempts or delta):
+        return "a receiver tried to import %r although import_custom_exceptions is off" % (attempts,), "C09:import-without-permission"
+    if final is None:
+        return "no exception surfaced at the final requester", "C09:nothing-surfaced"
+    if is_builtin:
+        needs = ve.kind_of(t) == "a"
+        if not vinegar_made(final):
+            sig = KNOWN_SIG if (needs and type(final) is TypeError) else "C09:two-hops-load-raises-" + type(final).__name__
+            if sig in known:
+                return None
+            return "after two hops %s.%s did not surface: %s: %s" % (m, c, type(final).__name__, str(final)[:100]), sig
+        nb = nearest_builtin(type(final))
+        if not isinstance(final, t) or nb is not t:
+            return ("raised %s; after two hops it surfaced as %s (bases %s): `except %s` misses it"
+                    % (c, type(final).__name__, [k.__name__ for k in type(final).__mro__[1:3]], c)), "C09:two-hops-class-differs"
+        want = normal_args(exc.args)
+        if valtext.canon(tuple(final.args)) != valtext.canon(want):
+            return "after two hops args %s surfaced as %s" % (valtext.to_text(want)[:100], valtext.canon(tuple(final.args))[:100]), \
+                "C09:two-hops-args-differ"
+    rtb = getattr(final, "_remote_tb", None)
+    if not vc.flags(s2)[0] and type(rtb) is str and "Traceback (most recent call last)" in rtb:
+        return "the second sender withholds tracebacks but one was disclosed", "C09:traceback-disclosed"
+    return None
+
+
+def vinegar_made(ex):
+    from rpyc.core import vinegar
+    return type(ex) in vinegar._exception_classes_cache.values()
+
+
 def oracle_payload(payload, r, mode="direct", known=()):
     """no payload makes the receiver import (unless allowed) or construct; the outcome is an exception of an allowed class or an error"""
     from rpyc.core import vinegar
@@ -538,6 +655,12 @@ BOUNDARY_SPECS = [
     {"cls": "dyn:c09pool_unknown:AppError", "args": "( I1 )", "kwargs": {}, "attrs": {}},
     {"cls": "dyn:c09pool_loaded:NotExc", "args": "( I1 )", "kwargs": {}, "attrs": {}},
 ]
+TWO_HOP_SPECS = [
+    {"cls": "builtins:ZeroDivisionError", "args": "( S100 )", "kwargs": {}, "attrs": {}},
+    {"cls": "builtins:KeyError", "args": "( S107 O0 )", "kwargs": {}, "attrs": {"detail": "I3"}},
+    {"cls": "builtins:OSError", "args": "( I2 S109 S102 )", "kwargs": {}, "attrs": {}},
+    {"cls": "builtins:StopIteration", "args": "( I5 )", "kwargs": {}, "attrs": {}},
+]
 BOUNDARY_PAYLOADS = [
     (("builtins", "int"), (), (), "tb"), (("builtins", "object"), (), (), "tb"), (("builtins", "print"), (), (), "tb"),
     (("c09pool_loaded", "AppError"), (1,), (), "tb"), (("c09pool_fresh", "AppError"), (1,), (), "tb"),
@@ -547,6 +670,8 @@ BOUNDARY_PAYLOADS = [
 
 
 def _case_oracle(case, known):
+    if case["kind"] == "exc2":
+        return oracle_exc2(case["spec"], case["s"], case["r"], case["s2"], case["r2"], case.get("mode", "direct"), known)
     if case["kind"] == "exc":
         return oracle_exc(case["spec"], case["s"], case["r"], case.get("mode", "direct"), known)
     return oracle_payload(vc.value_of(case["payload"]), case["r"], case.get("mode", "direct"), known)
@@ -572,10 +697,17 @@ def oracle_search(ctx, corr, broken):
         for spec in BOUNDARY_SPECS:
             for s, rr in [("TTFF", "FFF"), ("FFFF", "TTT"), ("FTFF", "FFF"), ("TFFF", "FTF")]:
                 yield dict(kind="exc", spec=spec, s=s, r=rr, mode="e2e")
+        for spec in TWO_HOP_SPECS:
+            for mode in ("direct", "relay"):
+                for s1, r1, s2, r2 in [("TTFF", "FFF", "TTFF", "FFF"), ("FFFF", "TTT", "FTFF", "FTF")]:
+                    yield dict(kind="exc2", spec=spec, s=s1, r=r1, s2=s2, r2=r2, mode=mode)
         specs, custom = vc.gen_specs(r, 3)
         allspecs = specs + custom
         while time.time() < deadline:
-            if r.chance(2, 3):
+            if r.chance(1, 6):
+                yield dict(kind="exc2", spec=r.choice(allspecs), s=r.choice(SENDS) + "FF", r=r.choice(RECVS),
+                           s2=r.choice(SENDS) + "FF", r2=r.choice(RECVS), mode="direct" if r.chance(4, 5) else "relay")
+            elif r.chance(2, 3):
                 yield dict(kind="exc", spec=r.choice(allspecs), s=r.choice(SENDS) + "FF", r=r.choice(RECVS),
                            mode="direct" if r.chance(4, 5) else "e2e")
             else:
@@ -605,7 +737,7 @@ def oracle_search(ctx, corr, broken):
 
 def shrink(case, sig, known):
     """drop extra attributes / kwargs and shorten the argument tuple while the same failure remains"""
-    if case["kind"] != "exc":
+    if case["kind"] not in ("exc", "exc2"):
         return case
     best = case
     spec = dict(case["spec"])
@@ -633,7 +765,17 @@ def replay(case):
     out = dict(case=case)
     mode = case.get("mode", "direct")
     try:
-        if case["kind"] == "exc":
+        if case["kind"] == "exc2":
+            if mode == "direct":
+                for _s2, _r2, line, obs, _info in vc.two_hop_product(case["spec"], case["s"], case["r"], [(case["s2"], case["r2"])]):
+                    break
+            else:
+                pair = vc.RelayPair(case["s"], case["r"], case["s2"], case["r2"])
+                try:
+                    line, obs, _info = vc.run_relay_e2e(pair, case["spec"], case["s2"], case["r2"])
+                finally:
+                    pair.close()
+        elif case["kind"] == "exc":
             if mode == "direct":
                 line, obs, _info = vc.run_exc_direct(case["spec"], case["s"], case["r"])
             else:
